@@ -75,6 +75,8 @@ What is theorem here:
     independence assumption: the launcher keeps the op order inside a lane), `c_prop_paths_agree` (induction over the levels),
     `level_any_thread_order` (every permutation of the threads of a level, under footprint independence of its ops; accumulation
     commutes) with the instance `level_any_thread_order_wave` for the evaluator `evWave` built from `Wave.waveSem`;
+    `eval_reads_back` (one `evWave` evaluation: the output region reads back as `Wave.waveSem` of the operand waveforms read
+    from memory, counts = `Wave.waveCounts`, nothing outside the output region changes);
   - capture (`sd = 0`): `capture_paths_agree` (index loop = slice scan = `captureWv` of the waveform the region encodes, i.e. the
     model of C13), `c_to_s_paths_agree` (same rows, same records);
   - `simulate_paths_agree`: `s_to_c; c_prop; c_to_s` of `WaveSimCuda` = of `WaveSim` on all arrays.
@@ -86,7 +88,9 @@ launch is tied in C07 (`grid`), `_wave_eval` in C03 (gate calls and whole runs o
 Not covered by a theorem: that the shared Python function `_wave_eval` is a function of the lane's memory with footprints inside
 the regions of its op (it is the parameter `ev` of the propagation theorems; its waveform-level model `Wave.waveEval` is tied by
 C03); the raw cells `_wave_eval` leaves behind the terminator of its output (the instance `evWave` leaves them unchanged);
-`sd > 0` (the two capture paths seed the sampling differently: `c_loc` vs `2 y`); NaN / infinite values in `s`.
+the composition of `eval_reads_back` over a whole program under the map certificate (memory-level `c_prop` of WaveSim = signal-level
+`simWave`; for LogicSim storage this is `C08.map_certificate_sound_logic`); `sd > 0` (the two capture paths seed the sampling
+differently: `c_loc` vs `2 y`); NaN / infinite values in `s`.
 What is correspondence (harness/c06.py, clause `wave-strip`): `genOps`, `stemsOf` = the real `ops` / `c_locs` (C01, exact);
 per case additionally: the real un-stripped rows satisfy `stripOkB` for the real branch ↦ stem map (read off `c_locs`),
 `stripOps` of the real un-stripped rows equals the real stripped rows, `Net.wfB` / `orderOKB` / `forksOKB` hold for the real
@@ -936,7 +940,8 @@ theorem c_prop_paths_agree (ev : Ev) (ops : List AOp) (levels : List (Nat × Nat
 `12 = OR(10, 11)` (level 2); signal `i` lives at address `8 i` with capacity 8, slot 9 is the constant 0; activity of 10 and 12
 is accumulated in `abuf[0]` with weights (1, 1) and (2, 3); three lanes with different stimuli; 2 × 2 blocks -/
 def pathOps : List AOp := [⟨⟨0x8888, 10, 0, 1, 9, 9⟩, 0, 1, 1⟩, ⟨⟨0x6666, 11, 1, 2, 9, 9⟩, -1, 0, 0⟩, ⟨⟨0xEEEE, 12, 10, 11, 9, 9⟩, 0, 2, 3⟩]
-def pathEv : Ev := evWave (fun _ => ⟨fun l _ _ => if l = 1 then 3 else 2, fun _ => 8⟩) (fun i => 8 * i)
+def pathCfg : WCfg := ⟨fun l _ _ => if l = 1 then 3 else 2, fun _ => 8⟩
+def pathEv : Ev := evWave (fun _ => pathCfg) (fun i => 8 * i)
 def pathS0 : Nat → LaneSt := fun x =>
   ⟨write3 (write3 (write3 (fun _ => T.tmax) 0 (gpuCells false true (T.fin (5 + x)))) 8 (gpuCells (x == 1) (x != 1) (T.fin 20)))
       16 (gpuCells true false (T.fin (9 + 2 * x))), fun _ => 0⟩
@@ -948,6 +953,31 @@ example : readWave (rdCells (gpuCProp pathEv pathOps [(0, 2), (2, 3)] 3 2 2 path
     (gpuCProp pathEv pathOps [(0, 2), (2, 3)] 3 2 2 pathS0 0).ab 0 = 6 ∧
     readWave (rdCells (cpuCProp pathEv pathOps [(0, 2), (2, 3)] 3 pathS0 1).c 96 8) = ⟨[T.fin 10, T.fin 25], T.tmax⟩ ∧
     (cpuCProp pathEv pathOps [(0, 2), (2, 3)] 3 pathS0 1).ab 0 = 7 := by decide +kernel
+
+/-- **what one evaluation leaves in memory, for the evaluator built from the waveform model**: delays ≥ 0, output capacity ≥ 4
+    (`c_caps_min`), well-formed operand waveforms in the operand regions — the output region then reads back as `Wave.waveSem` of
+    the operand waveforms read from memory (the op semantics all signal-level theorems of C03–C05 and C13 are about), the
+    returned `(nrise, nfall)` is `Wave.waveCounts`, and no cell outside the output region has changed -/
+theorem eval_reads_back (g : WCfg) (loc : Nat → Int) (o : OpRow) (sim : Nat) (c : Col)
+    (hd : ∀ l p q, 0 ≤ g.delay l p q) (hc : 4 ≤ g.cap o.out)
+    (hx : ∀ i ∈ o.ins, (readWave (rdCells c (loc i) (g.cap i))).ok) :
+    readWave (rdCells (evWave (fun _ => g) loc o sim c).1 (loc o.out) (g.cap o.out)) =
+      waveSem g ⟨o.lut, o.out, o.ins⟩ (o.ins.map fun i => readWave (rdCells c (loc i) (g.cap i))) ∧
+    (evWave (fun _ => g) loc o sim c).2 =
+      waveCounts g ⟨o.lut, o.out, o.ins⟩ (o.ins.map fun i => readWave (rdCells c (loc i) (g.cap i))) ∧
+    ∀ a, ¬ inRegion loc g.cap o.out a → (evWave (fun _ => g) loc o sim c).1 a = c a :=
+  evWave_reads_back g loc o sim c hd hc hx
+
+/-- non-vacuity: the AND of the example on lane 0 (inputs rise at 5 and at 20, delays 2 and 3) -/
+example : readWave (rdCells (pathEv ⟨0x8888, 10, 0, 1, 9, 9⟩ 0 (pathS0 0).c).1 80 8) =
+    waveSem pathCfg ⟨0x8888, 10, [0, 1, 9, 9]⟩ ([0, 1, 9, 9].map fun i => readWave (rdCells (pathS0 0).c (8 * (i : Int)) 8)) :=
+  (eval_reads_back pathCfg (fun i => 8 * i) ⟨0x8888, 10, 0, 1, 9, 9⟩ 0 (pathS0 0).c
+    (by intro l p q; show (0 : Int) ≤ if l = 1 then 3 else 2; split <;> omega) (by decide)
+    (by
+      intro i hi
+      simp only [OpRow.ins, List.mem_cons, List.not_mem_nil, or_false] at hi
+      rcases hi with rfl | rfl | rfl | rfl <;> (simp only [Wv.ok, WfRem]; decide +kernel))).1
+example : readWave (rdCells (pathEv ⟨0x8888, 10, 0, 1, 9, 9⟩ 0 (pathS0 0).c).1 80 8) = ⟨[T.fin 23], T.tmax⟩ := by decide +kernel
 
 /-- **`level_any_thread_order`: a level under an ARBITRARY thread order** (a real GPU gives none). Every list of threads that is
     a permutation of the work items `(sim, op)` of the level leaves the same `c` and `abuf` as `level_eval_cpu`, for every
@@ -979,7 +1009,7 @@ theorem level_any_thread_order_wave (g : WCfg) (loc : Nat → Int) (hcap : ∀ i
     scrambled order -/
 example : runLanes (evalWork pathEv pathOps 0) [(2, 1), (0, 0), (1, 1), (2, 0), (0, 1), (1, 0)] pathS0 =
     cpuLevel pathEv pathOps 0 2 0 3 pathS0 :=
-  level_any_thread_order_wave ⟨fun l _ _ => if l = 1 then 3 else 2, fun _ => 8⟩ (fun i => 8 * i) (fun _ => (by decide : 2 ≤ 8)) pathOps 0 2 3
+  level_any_thread_order_wave pathCfg (fun i => 8 * i) (fun _ => (by decide : 2 ≤ 8)) pathOps 0 2 3
     (by
       intro y y' hy hy' hne
       have h1 : y = 0 ∨ y = 1 := by omega
